@@ -1441,8 +1441,17 @@ func Now(env envs.Environment) types.XValue {
 //
 // @function date_from_parts(year, month, day)
 func DateFromParts(env envs.Environment, year, month, day int) types.XValue {
+	if year < 1 || year > 9999 {
+		return types.NewXErrorf("invalid value for year, must be 1-9999")
+	}
 	if month < 1 || month > 12 {
 		return types.NewXErrorf("invalid value for month, must be 1-12")
+	}
+
+	// the fields are kept as they are, so they have to be a date of the calendar: 30 February would be written as 2 March
+	// and so be a value that isn't equal to the one its own text is read as
+	if day < 1 || day > time.Date(year, time.Month(month)+1, 0, 0, 0, 0, 0, time.UTC).Day() {
+		return types.NewXErrorf("invalid value for day, must be a day of the given month")
 	}
 
 	return types.NewXDate(dates.NewDate(year, month, day))
